@@ -1,5 +1,6 @@
 import Sismic.Proofs.Edit
 import Sismic.Proofs.EditInv
+import Sismic.Proofs.EditTree
 /-!
 # Property C16 — structural editing keeps a statechart sound; failed edits change nothing
 
@@ -12,8 +13,12 @@ unknown), the exact effect of the transition operations, of `rename_state` on tr
 `move_state` on states/transitions, and — for **all seven** operations, whether they succeed or
 raise, and for every sequence of them starting from an empty `Statechart` — preservation of
 "every transition starts from a state that may own transitions and refers to existing states"
-(`TransOK`, the part of validity that makes `Interpreter` lookups total).  The parent/children
-tree invariants of `add/remove/rename/move_state` are decided by the tie only (DESIGN.md §7).
+(`TransOK`, the part of validity that makes `Interpreter` lookups total) and of the mutual
+consistency of the three dictionaries `_states`, `_parent`, `_children` (`Tidy`: no duplicate
+keys, keys are exactly the states, `x ∈ children(p) ⇔ parent(x) = p`, no repetition among
+children, at most one root, nobody is its own parent).  Acyclicity of the parent relation beyond
+"nobody is its own parent" and `validate()` after each edit are decided by the tie only
+(DESIGN.md §7).
 -/
 namespace Sismic.C16
 open Sismic.Chart
@@ -96,5 +101,33 @@ theorem any_edit_session_keeps_transitions_anchored (ops : List EditOp) (c : Cha
 theorem built_charts_have_anchored_transitions (nm : String) (ops : List EditOp) :
     (({ name := nm } : Chart).applyEdits ops).TransOK :=
   applyEdits_transOK ops _ (by intro t ht; simp at ht)
+
+/-! ### parent / children stay mutually consistent -/
+
+theorem dictionaries_stay_consistent_add (c : Chart) (s : StateDef) (p : Option Name) (ht : Tidy c)
+    (h : (c.addState s p).1 = .ok ()) : Tidy (c.addState s p).2 := addState_tidy c s p ht h
+
+/-- also when the recursive removal raises half-way -/
+theorem dictionaries_stay_consistent_remove (c : Chart) (n : Name) (ht : Tidy c) : Tidy (c.removeState n).2 :=
+  removeState_tidy c n ht
+
+theorem dictionaries_stay_consistent_rename (c : Chart) (a b : Name) (ht : Tidy c)
+    (h : (c.renameState a b).1 = .ok ()) : Tidy (c.renameState a b).2 := renameState_tidy c a b ht h
+
+theorem dictionaries_stay_consistent_move (c : Chart) (a b : Name) (ht : Tidy c)
+    (h : (c.moveState a b).1 = .ok ()) : Tidy (c.moveState a b).2 := moveState_tidy c a b ht h
+
+/-- **Whatever a client does with the editing API** — any sequence of the seven operations, each
+    succeeding or raising — **`_states`, `_parent` and `_children` stay mutually consistent**: every
+    state has exactly one entry in `_parent` and one in `_children` and nothing else has; `x` is in
+    the children list of `p` iff `p` is the parent of `x`; no list mentions a state twice; at most
+    one state has no parent; nobody is its own parent. -/
+theorem any_edit_session_keeps_dictionaries_consistent (ops : List EditOp) (c : Chart) (ht : Tidy c) :
+    Tidy (c.applyEdits ops) := applyEdits_tidy ops c ht
+
+/-- …in particular in every statechart built from `Statechart(name)` by the API alone. -/
+theorem built_charts_have_consistent_dictionaries (nm : String) (ops : List EditOp) :
+    Tidy (({ name := nm, children := [(none, [])] } : Chart).applyEdits ops) :=
+  applyEdits_tidy ops _ (empty_tidy nm)
 
 end Sismic.C16
